@@ -105,20 +105,20 @@ def rng_digest() -> str:
 
 
 # ---------------------------------------------------------------------------------------------- reference table
-def ref_main(out_path, specs):
+def ref_main(out_path, specs, getters=None):
     """runs in a fresh subprocess: first call of every getter on a fresh object"""
     devnull = os.open(os.devnull, os.O_WRONLY)
     os.dup2(devnull, 1)
     table = {}
     for spec in specs:
         table[spec] = {}
-        for g in GETTERS:
+        for g in (getters or GETTERS):
             table[spec][g] = observe(create(spec), g)
     with open(out_path, "w") as f:
         json.dump(table, f)
 
 
-def build_table(specs, hash_seeds=(0, 1, 4242)):
+def build_table(specs, hash_seeds=(0, 1, 4242), getters=None):
     verif = os.path.dirname(os.path.dirname(os.path.abspath(__file__)))
     repo = os.environ.get("VERIF_REPO", "/repo")
     procs = []
@@ -131,7 +131,7 @@ def build_table(specs, hash_seeds=(0, 1, 4242)):
                     continue
                 out = os.path.join(tmpd, f"t_{hs}_{ci}.json")
                 code = (f"import sys; sys.path[:0]=[{repo!r}, {verif!r}]; import warnings; warnings.filterwarnings('ignore'); "
-                        f"from checks import c08; c08.ref_main({out!r}, {chunk!r})")
+                        f"from checks import c08; c08.ref_main({out!r}, {chunk!r}, {list(getters) if getters else None!r})")
                 env = dict(os.environ, PYTHONHASHSEED=str(hs))
                 procs.append((hs, out, subprocess.Popen([sys.executable, "-c", code], env=env, stdout=subprocess.DEVNULL,
                                                         stderr=subprocess.PIPE)))
@@ -276,6 +276,19 @@ def run(ctx):
            "FG|randomQ_6|cube3D_9|[0.2,0.3,0.45]|cart", "FG|randomQ_6|cube3D_9|[0.2,0.3,0.45]|shell"]
     specs = specs + FGS
     tables = build_table(specs)
+    # grids whose rows come from deeper subdivision levels: coordinates only, compared across fresh processes started with
+    # different PYTHONHASHSEED values (row order must not depend on set/dict iteration order)
+    deep_specs = ["ico_50", "ico_170", "cube3D_30", "cube3D_120", "cube4D_12", "cube4D_45"] + \
+                 (["ico_650", "cube3D_400"] if ctx.thorough else [])
+    atab = build_table(deep_specs, hash_seeds=(0, 1, 2, 4242), getters=("array", "adjacency"))
+    base_h = sorted(atab)[0]
+    for h in sorted(atab)[1:]:
+        for sp in deep_specs:
+            for g in atab[base_h][sp]:
+                if atab[h][sp][g] != atab[base_h][sp][g]:
+                    rep.add_violations([viol(f"C08|crossprocess|{sp}|{g}|hashseed={h}", f"{g} of {sp} differs between fresh "
+                                             f"processes (PYTHONHASHSEED {base_h} vs {h})", {"spec": sp, "getter": g, "hashseed": h},
+                                             expected=atab[base_h][sp][g], observed=atab[h][sp][g])])
     hs = sorted(tables)
     ref = tables[hs[0]]
     for h in hs[1:]:
@@ -388,7 +401,7 @@ def replay(case):
         return deep_case({"history": case["history"]})["violations"]
     if "alg" in case:
         return prefix_case(case)["violations"]
-    t = build_table([case["spec"]], hash_seeds=(0, case["hashseed"]))
+    t = build_table([case["spec"]], hash_seeds=(0, case["hashseed"]), getters=(case["getter"],))
     if t[0][case["spec"]][case["getter"]] != t[case["hashseed"]][case["spec"]][case["getter"]]:
         return [viol(f"C08|crossprocess|{case['spec']}|{case['getter']}|hashseed={case['hashseed']}", "differs", case)]
     return []
